@@ -163,7 +163,7 @@ func (t *interner) ccell(c otto.VerifCell) string {
 }
 
 func crt(h otto.VerifHeap) string {
-	return fmt.Sprintf("(mkRt %d %s %d)", h.Global, Czlist(h.Fields), h.Eval)
+	return fmt.Sprintf("(mkRt %d %s %d [])", h.Global, Czlist(h.Fields), h.Eval)
 }
 
 func (g *gen) hookCase(H []string, hist []int64, serial int) {
@@ -181,7 +181,7 @@ func (g *gen) hookCase(H []string, hist []int64, serial int) {
 	}
 	cp, p := safeCopy(vm)
 	if p != nil {
-		g.add(fmt.Sprintf("CRuntime %d %s %s false [] [] (mkRt 0 [] 0)", evalName, Clist(ca), crt(ha)),
+		g.add(fmt.Sprintf("CRuntime %d %s %s false [] [] (mkRt 0 [] 0 [])", evalName, Clist(ca), crt(ha)),
 			fmt.Sprintf("hook #%d hist=%v: %d cells, Copy() PANIC %v ; H=%q", serial, hist, len(ha.Cells), p, H[1:]), "hook-panic", true)
 		return
 	}
